@@ -36,4 +36,31 @@ example : (Gen.Src.Cls.MPEGAdaptionExtension.pack
       ltw := [1, 2], piecewise := [], seamless_splice := [1, 2, 3, 4, 5] }).2 = .ok [9, 0xBF, 1, 2, 1, 2, 3, 4, 5] := by
   rfl
 
+/-- `MPEGAdaptionExtension.unpack`, for every prior object and every buffer: the object afterwards, the returned offset
+    (as a Python int) and the exceptions are the model's -/
+theorem src_MPEGAdaptionExtension_unpack (o : Gen.Src.Cls.MPEGAdaptionExtension.Obj) (buf : Bytes) :
+    (MPEGAdaptionExtension.toModel (Gen.Src.Cls.MPEGAdaptionExtension.unpack o buf).1,
+      (Gen.Src.Cls.MPEGAdaptionExtension.unpack o buf).2)
+      = (((MPEGAdaptionExtension.toModel o).unpack buf).1,
+         ((MPEGAdaptionExtension.toModel o).unpack buf).2.map Int.ofNat) := by
+  unfold Gen.Src.Cls.MPEGAdaptionExtension.unpack Model.MPEGTS.Ext.unpack
+  simp only [Gen.MPEGTS.Ext_unpack_fmt0, structUnpackFromI_eq, toNat_lit, Py.len]
+  cases hs : structUnpackFrom ⟨true, [.u8, .u8]⟩ buf 0 with
+  | error e => simp [Except.map]
+  | ok vs =>
+    have hl := structUnpackFrom_vals_length _ _ _ _ hs
+    match vs, hl with
+    | [len, flags], _ =>
+      have g0 : Py.intAt [(len : Int), (flags : Int)] 0 = len := rfl
+      have g1 : Py.intAt [(len : Int), (flags : Int)] 1 = flags := rfl
+      simp only [Except.map, List.map, Int.ofNat_eq_natCast, g0, g1, MPEGAdaptionExtension.flag_bit7,
+        MPEGAdaptionExtension.flag_bit6, MPEGAdaptionExtension.flag_bit5]
+      by_cases hlen : buf.length < len
+      · have : ((buf.length : Nat) : Int) < (len : Int) := by omega
+        simp [hlen, this]
+      · have : ¬ ((buf.length : Nat) : Int) < (len : Int) := by omega
+        simp only [hlen, this, if_false]
+        cases h1 : (flags / 128 % 2 == 1) <;> cases h2 : (flags / 64 % 2 == 1) <;> cases h3 : (flags / 32 % 2 == 1) <;>
+          simp [MPEGAdaptionExtension.toModel, Py.sliceI, slice]
+
 end Acra.Props.C06
